@@ -63,6 +63,8 @@ pub struct KCloneOnly;
 pub struct KIntResMixed;
 pub struct KAttrs;
 pub struct KDup;
+pub struct KKVStore;
+pub struct KIOPort;
 pub struct KLife;
 pub struct KGrpA;
 pub struct KGrpR;
@@ -239,6 +241,8 @@ single!(KIntRes, IntRes, INTRES, call_intres, m, []);
 single!(KAttrs, Attrs, ATTRS, call_attrs, m, []);
 single!(KLife, Life<'static, u64>, LIFE, call_life, m, []);
 single!(KDup, Dup, DUP, call_dup, m, [O: IntoDyn<KDup>,]);
+single!(KKVStore, KVStore, KVSTORE, call_kvstore, m, []);
+single!(KIOPort, IOPort, IOPORT, call_ioport, r, []);
 impl<T: Dup + 'static> IntoDyn<KDup> for T {
     fn into_dyn(self) -> Box<dyn DynObj> {
         Box::new(W::<T, KDup>::new(self))
